@@ -386,3 +386,12 @@ Section Bodies.
     - unfold run. rewrite Hb, Hs. cbn [option_map]. rewrite snd_out_of_pyv. reflexivity.
   Qed.
 End Bodies.
+
+(* ================================================================ operator overloads of BaseGenerator
+   a + b, a * b, a ^ b build exactly the Concat / Ensemble / Mesh of their operands; the generated
+   functions take no oracle for sampling: the operators call no method of their operands. *)
+Theorem gen_operators_eq (a b : gen) :
+  base_add a b = Some (Concat [a; b], tt) /\
+  base_mul a b = Some (Ensemble [a; b], tt) /\
+  base_xor a b = Some (Mesh [a; b], tt).
+Proof. repeat split; reflexivity. Qed.
